@@ -168,6 +168,37 @@ def run(repo: Repo, rep: Report) -> None:
             if m != "triples":
                 loops.clobber_scan(rep, rule_tmp, gm, fn, "%s.%s" % (cls, m))
 
+    translation_cache_rule(repo, rep, "C15.e-translation-not-cached", ("translateQuery", "translateUpdate"))
+
+    # (f) path objects keep no evaluation state
+    rep.rule("C15.f-paths-are-stateless",
+             "no eval() of a Path class (nor a helper nested in it) assigns an attribute of the path object: a path is a value that may be evaluated "
+             "on any graph any number of times (a memo on the path goes stale when the graph changes)", floor=5)
+    pth = repo.mod("rdflib.paths")
+    for c in typed.subclasses("rdflib.paths.Path"):
+        cname = c.rsplit(".", 1)[1]
+        if not c.startswith("rdflib.paths.") or not pth.has(cname + ".eval"):
+            continue
+        f = pth.func(cname + ".eval")
+        writes = []
+        for n in own_nodes(f, include_nested=True):
+            tgs = []
+            if isinstance(n, ast.Assign):
+                tgs = n.targets
+            elif isinstance(n, (ast.AugAssign, ast.AnnAssign)):
+                tgs = [n.target]
+            for t in tgs:
+                r = t
+                while isinstance(r, ast.Subscript):
+                    r = r.value
+                if isinstance(r, ast.Attribute) and isinstance(r.value, ast.Name) and r.value.id == "self":
+                    writes.append(n)
+            if isinstance(n, ast.Call) and isinstance(n.func, ast.Attribute) and n.func.attr in ("setdefault", "update", "append", "add", "__setitem__") \
+                    and isinstance(n.func.value, ast.Attribute) and isinstance(n.func.value.value, ast.Name) and n.func.value.value.id == "self":
+                writes.append(n)
+        rep.ob("C15.f-paths-are-stateless", pth, cname + ".eval", "eval() writes no attribute of self", not writes,
+               "stateless" if not writes else "eval() stores state on the path object (%s): a second evaluation, or one on another/changed graph, is answered from it" % norm(writes[0])[:70], node=writes[0] if writes else f)
+
     # ------------------------------------------------------------------ (d)
     rep.rule("C15.d-rebinding-by-membership",
              "QueryContext / Bindings / FrozenBindings decide whether a variable is already bound by key membership or identity "
@@ -192,3 +223,62 @@ EXEMPT_D = {
     ("QueryContext.__init__", "bindings"): "`bindings or []`: an empty mapping and [] initialise the same empty dict",
     ("QueryContext.__init__", "initBindings"): "an empty initBindings mapping adds nothing either way",
 }
+
+
+def translation_cache_rule(repo: Repo, rep: Report, RULE: str, which: tuple) -> None:
+    """results of translateQuery / translateUpdate are per call unless keyed completely"""
+    rep.rule(RULE,
+             "in rdflib/plugins/sparql/processor.py the algebra produced by %s for a request text is used for that call only: it is not returned by "
+             "an lru_cache/cache-decorated function nor stored in an attribute, class variable, dict or global. (For queries a memo is accepted when "
+             "its key contains the text, the base and the namespace *items*; a translated update is never reusable: INSERT/DELETE DATA carry the "
+             "blank nodes the parser created, which must be fresh per request.)" % "/".join(which), floor=1)
+    pm = repo.mod("rdflib.plugins.sparql.processor")
+    n_calls = 0
+    for q, f in pm.functions():
+        calls = [c for c in own_nodes(f, include_nested=True) if isinstance(c, ast.Call) and norm(c.func) in which]
+        if not calls:
+            continue
+        n_calls += len(calls)
+        cached_decl = [norm(d) for d in f.decorator_list if any(x in norm(d) for x in ("lru_cache", "cache", "memoize"))]
+        for c in calls:
+            kind = norm(c.func)
+            problems = []
+            if cached_decl:
+                if kind == "translateUpdate":
+                    problems.append("computed inside the %s-decorated function %s" % (cached_decl[0], q))
+                else:
+                    params = [a.arg for a in f.args.args]
+                    if not any("items" in p.lower() or "ns" in p.lower() for p in params) or "base" not in " ".join(params).lower():
+                        problems.append("computed inside the %s-decorated function %s whose parameters do not carry base and the namespace items" % (cached_decl[0], q))
+            # stored?
+            st = c
+            for p in pm.parents(c):
+                if isinstance(p, ast.stmt):
+                    st = p
+                    break
+            names = set()
+            if isinstance(st, (ast.Assign, ast.AnnAssign)):
+                tgs = st.targets if isinstance(st, ast.Assign) else [st.target]
+                for t in tgs:
+                    if isinstance(t, (ast.Attribute, ast.Subscript)):
+                        problems.append("stored in %s" % norm(t))
+                    elif isinstance(t, ast.Name):
+                        names.add(t.id)
+            # a local holding it that is later stored
+            for n in own_nodes(f, include_nested=True):
+                if isinstance(n, ast.Assign) and isinstance(n.value, ast.Name) and n.value.id in names:
+                    for t in n.targets:
+                        if isinstance(t, (ast.Attribute, ast.Subscript)):
+                            key = norm(t.slice) if isinstance(t, ast.Subscript) else ""
+                            src = key
+                            for a in own_nodes(f, include_nested=True):
+                                if isinstance(a, ast.Assign) and norm(a.targets[0]) == key:
+                                    src = norm(a.value)
+                            complete = kind == "translateQuery" and "items()" in src and "base" in src
+                            if not complete:
+                                problems.append("stored in %s under the key %s" % (norm(t), src[:60]))
+            rep.ob(RULE, pm, q, c, not problems,
+                   "translated for this call only" if not problems else
+                   "the translated algebra is reused across calls (%s): a later request with the same text is answered with an algebra resolved for other namespaces / carrying the first request's blank nodes" % "; ".join(problems), node=c)
+    if n_calls == 0:
+        raise AnalysisError("processor.py: no call to %s found" % "/".join(which))
